@@ -138,15 +138,17 @@ Print Assumptions C20_checked_history_every_checkin_accepted.
 
 (** ---- whole histories of the engine: any number of travellers ---- *)
 Theorem C20_engine_history_every_checkin_accepted : forall (N : NumOps) mx, 1 <= mx ->
-  forall (xs : list (@xev N)) clk (a : admin N),
-  x_conforming mx clk {| e_admin := a; e_table := [] |} xs ->
+  forall (xs : list (@xev N)) (c : clock) (a : admin N),
+  x_conforming mx c {| e_admin := a; e_table := [] |} xs ->
   x_all_accepted {| e_admin := a; e_table := [] |} xs.
 Proof. exact @fresh_engine_history_all_accepted. Qed.
 Print Assumptions C20_engine_history_every_checkin_accepted.
 
+(** [c] gives every traveller a clock of their own (the time of the last operation on their record):
+    check-ins of different travellers on the same day are not ordered in time *)
 Theorem C20_engine_step_keeps_invariant : forall (N : NumOps) mx, 1 <= mx ->
-  forall clk (e : engine N) x,
-  EJ mx clk e -> x_conforms mx clk e x -> x_accepted e x /\ EJ mx (x_time clk x) (x_apply e x).
+  forall (c : clock) (e : engine N) x,
+  EJ mx c e -> x_conforms mx c e x -> x_accepted e x /\ EJ mx (x_clock c e x) (x_apply e x).
 Proof. exact @x_step. Qed.
 Print Assumptions C20_engine_step_keeps_invariant.
 
